@@ -1336,7 +1336,13 @@ func (p *scionPacketProcessor) validateTransitUnderlaySrc() disposition {
 		// Locally originated traffic, or came in via an external link. Not our concern.
 		return pForward
 	}
-	pktIngressID := p.ingressInterface()        // Where this was *supposed* to enter the AS
+	pktIngressID := p.ingressInterface() // Where this was *supposed* to enter the AS
+	if pktIngressID == 0 {
+		// A packet in transit has entered the AS through some external interface. A path that
+		// names none is not in transit; interfaces[0] is the internal link, which would make
+		// the comparison below accept exactly the traffic it is there to refuse.
+		return errorDiscard("error", errInvalidSrcAddrForTransit)
+	}
 	ingressLink := p.d.interfaces[pktIngressID] // Our own link to *that* sibling router
 
 	// Is that the link that the packet came through (e.g. not the internal link)? The
